@@ -76,9 +76,31 @@ def unit(item):
     pkey, skey, flags, tier, seed, wseed = item
     spec = ALL_SPECS[skey]
     p = Partial()
-    insts = stackable_instances(spec, seed, 4 if tier == "thorough" else 3)
+    want = 5 if tier == "thorough" else 4
+    insts = stackable_instances(spec, seed, 10)
     env = spec.env(insts[0][1])
     pol = make(pkey, env, wseed)
+    if len(insts) > want:
+        # prefer instances whose solo episodes have DIFFERENT lengths, so that rows finish at different steps and the
+        # early ones are padded inside a batch (otherwise post-finish behaviour is never exercised)
+        kinds = {}
+        for i, (iid, inst, td0) in enumerate(insts):
+            try:
+                a = decode(pol, env, [td0], flags, decode_type="greedy")["actions"][0].tolist()
+                kinds.setdefault((len(a), a[0]), []).append(i)
+            except Exception:  # noqa: BLE001
+                kinds.setdefault((0, 0), []).append(i)
+        # one instance per (episode length, first action) class, shortest and longest classes first
+        keys = sorted(kinds)
+        keys = [keys[0], keys[-1]] + keys[1:-1] if len(keys) > 2 else keys
+        seen = []
+        for k in keys:
+            if kinds[k][0] not in seen:
+                seen.append(kinds[k][0])
+        for i in range(len(insts)):
+            if i not in seen:
+                seen.append(i)
+        insts = [insts[i] for i in sorted(seen[:want])]
     n = len(insts)
     solo = {}
     for i, (iid, inst, td0) in enumerate(insts):
@@ -130,7 +152,9 @@ def unit(item):
                 continue
             if abs(rew[pos] - sr) > TOL * (1 + abs(sr)):
                 p.violation(sig(pkey, skey, "reward", f"batch_size=={B}"), rec, f"{pkey} x {skey}: instance {insts[i][0]}: reward {sr} alone vs {rew[pos]} at position {pos} of batch {[insts[j][0] for j in arr]}")
-            if len(acts) == len(sa) and abs(ll[pos] - sl) > 1e-4:
+            # padding steps of a finished row have a single admissible action (probability one) in every bundled environment,
+            # so the log-likelihood must not depend on how many of them a slower batch-mate imposes
+            if abs(ll[pos] - sl) > 1e-4:
                 p.violation(sig(pkey, skey, "log_likelihood", f"batch_size=={B}"), rec, f"{pkey} x {skey}: instance {insts[i][0]}: log-likelihood {sl} alone vs {ll[pos]} at position {pos} of batch {[insts[j][0] for j in arr]}")
             p.outcome(f"{pkey}|{skey}|{tuple(sa)}")
     # multi-start factorisations
